@@ -295,9 +295,12 @@ PROPS = {
                    "acquire computes before sleeping makes the reservation grantable (can_grant), every Permit::drop in between preserves "
                    "that, and the final critical section re-establishes the invariant; drop never underflows; acquire writes the state exactly "
                    "once, after its last cancellation point (assertion at every `?`: a cancelled wait has written nothing); the returned "
-                   "permit carries 0 permits iff the refresh rate is infinite.",
-        level_note="Not decided: the window bound b + T/r + 1 as a theorem over transition sequences (the per-transition facts it needs are "
-                   "proved), arrival-order service (tokio's fair mutex), and the per-connection RPC consequence (composition through the mux, "
+                   "permit carries 0 permits iff the refresh rate is infinite. Window bound: each of the three state writes is proved to be a "
+                   "`step` (the potential free-permits minus limiter-clock drops by at least the permits it grants; only acquire's commit "
+                   "grants), and lemma_window proves by induction over ANY sequence of steps that the permits granted are <= free permits at "
+                   "the start + ticks the clock advanced <= burst + ticks elapsed, i.e. b + T/r (+1 for partial periods at the window's ends).",
+        level_note="Not decided: the relation between the limiter clock (ticks = floor((now - start) / refresh), or the tick an acquire "
+                   "slept until) and wall-clock time is read off the code, not proved; arrival-order service (tokio's fair mutex), and the per-connection RPC consequence (composition through the mux, "
                    "concurrent). Rely condition: between the wait and the final section only Permit::drop runs (acquires are serialised by "
                    "the acquire mutex, A4). A6: the i128 tick counter stays below 2^126. time::Duration::new / tokio watch as documented.",
         technique="contract-based deductive verification (Verus on extracted real functions and lifted closures; rely predicate can_grant)",
